@@ -3,7 +3,12 @@ import ast
 import z3
 from pyvc.values import *   # noqa
 from pyvc.harness import unit, mutate_function, replace_compare
-from pyvc.loops import LoopSpec, loop_table
+from pyvc.loops import LoopSpec, loop_table, Sel
+
+MATCH_LOOP = Sel('while', header=('matched',))
+ROLLBACK_LOOP = Sel('for', body=('__doChangeCluster', 'reverse=True'))
+APPEND_LOOP = Sel('for', body=('__raftLog.add',))
+APPLY_CHANGES_LOOP = Sel('for', body=('__doChangeCluster',), not_body=('__raftLog.add', 'reverse=True'))
 from pyvc.ctx import Undecided
 from pyvc.interp import PyExc
 from .so_common import *    # noqa
@@ -403,8 +408,8 @@ def msg_append_entries(ctx, kind):
     loops = {}
     hooks = {'loads_recvbuf': loads_recvbuf, 'ae_prev': ex.get('p'), 'dump_changes_members': False}
     if kind == 'regular':
-        loops = {HANDLER: loop_table(so.mod, HANDLER, {0: _match_loop_spec(so, old, ex['E'], ex['p']),
-                                                        2: _append_loop_spec(so, old, ex['E'], ex['p'])})}
+        loops = {HANDLER: loop_table(so.mod, HANDLER, {MATCH_LOOP: _match_loop_spec(so, old, ex['E'], ex['p']),
+                                                        APPEND_LOOP: _append_loop_spec(so, old, ex['E'], ex['p'])})}
     reg = dict(SUMMARIES)
     reg['SyncObj.__loadDumpFile'] = loadDump_summary
     reg['Serializer.setTransmissionData'] = setTransmissionData_ext
@@ -644,8 +649,8 @@ def msg_append_entries_membership(ctx):
     msg, mt, lc, ex = ae_message(ctx, so, 'regular')
     old = so.snapshot()
     E, p = ex['E'], ex['p']
-    loops = {HANDLER: loop_table(so.mod, HANDLER, {0: _match_loop_spec(so, old, E, p), 1: _rollback_loop_spec(so, old, E, p),
-                                                    2: _append_loop_spec(so, old, E, p), 3: _apply_changes_loop_spec(so, old, E, p)})}
+    loops = {HANDLER: loop_table(so.mod, HANDLER, {MATCH_LOOP: _match_loop_spec(so, old, E, p), ROLLBACK_LOOP: _rollback_loop_spec(so, old, E, p),
+                                                    APPEND_LOOP: _append_loop_spec(so, old, E, p), APPLY_CHANGES_LOOP: _apply_changes_loop_spec(so, old, E, p)})}
     reg = dict(APPLY_REG)
     I = make_interp(ctx, so, registry=reg, inline=INL, loops=loops)
     kindr, v = run_method(I, so, HANDLER, [node, msg])
